@@ -191,12 +191,12 @@ def _num(h):
 
 def proj_dump(x):
     """the part of the public-API dump the pass-engine model also yields: glyph ids, association, attachment parent / first
-    child, origin and advance in design units (the dump was made without a font), and the segment advance"""
+    child / next sibling (incl. the base chain of linkClusters), origin and advance in design units (the dump was made without a font), and the segment advance"""
     d = segspec.parse_dump(x)
     if d is None:
         return x.split()[0] if x else "empty"
     return ("n=%d walk=%d adv=%s,%s " % (d["n"], d["walk"], _num(d["adv"][0]), _num(d["adv"][1]))
-            + " ".join("s:%d,%d,%d,%d,%d,%d,%s,%s,%s" % (s["gid"], s["before"], s["after"], s["original"], s["parent"], s["child"], _num(s["ox"]), _num(s["oy"]), _num(s["ax"]))
+            + " ".join("s:%d,%d,%d,%d,%d,%d,%d,%s,%s,%s" % (s["gid"], s["before"], s["after"], s["original"], s["parent"], s["child"], s["sibling"], _num(s["ox"]), _num(s["oy"]), _num(s["ax"]))
                        for s in d["slots"])).strip()
 
 
